@@ -129,6 +129,7 @@ struct Ctx {
     Violation v;
     std::vector<Violation> collateral;
     uint64_t trace = 1469598103934665603ULL;
+    uint64_t trace_prefix = 0;      // trace hash before the operation in progress (a failing op may return stale memory: only the prefix must replay exactly)
     uint64_t mutations = 0;
     int cur_client = 0, cur_op = -1;
     int tgt_allocs = -1, ctor_allocs = 0;   // enumeration: allocations inside the target op / constructor
